@@ -66,6 +66,7 @@ var repo = "/repo"
 var schedPkgs = map[string]bool{}
 var densePkgs = map[string]bool{}
 var unsupported []string
+var schedAll bool
 
 func main() {
 	passes := flag.String("passes", "map", "comma separated passes")
@@ -74,6 +75,7 @@ func main() {
 	flag.StringVar(&repo, "repo", "/repo", "repository root")
 	sp := flag.String("schedpkgs", "", "packages that get go/blocking/lock seams (comma separated import paths)")
 	dp := flag.String("densepkgs", "", "packages that additionally get a yield before every statement")
+	flag.BoolVar(&schedAll, "schedall", false, "apply the go/blocking/lock seams to every selected package")
 	flag.Parse()
 	for _, x := range strings.Split(*sp, ",") {
 		if x != "" {
@@ -139,8 +141,14 @@ func main() {
 			if want["map"] {
 				passMap(p, file, f)
 			}
-			if want["sched"] && schedPkgs[p.PkgPath] {
+			if want["sched"] && (schedPkgs[p.PkgPath] || schedAll) {
 				passSched(p, file, f, densePkgs[p.PkgPath])
+			}
+			if want["gyield"] {
+				passGYield(p, file, f)
+			}
+			if want["mapacc"] {
+				passMapAcc(p, file, f, want["map"])
 			}
 			if len(f.edits) == 0 {
 				continue
@@ -428,13 +436,38 @@ func passSched(p *packages.Package, file *ast.File, f *fileRW, dense bool) {
 				f.repl(n.Pos(), n.End(), fmt.Sprintf("verifsim.%s(%s, %d)", name, recv, id))
 				return false
 			}
-			if name == "Lock" || name == "Unlock" || name == "RLock" || name == "RUnlock" {
+			if (name == "Lock" || name == "Unlock" || name == "RLock" || name == "RUnlock") && len(n.Args) == 0 {
+				if s := info.Selections[sel]; s != nil && s.Obj().Pkg() != nil && s.Obj().Pkg().Path() == "sync" && len(s.Index()) == 2 {
+					// promoted through one embedded field: x.Lock() is x.<Field>.Lock()
+					st := rt
+					if pt, ok := st.(*types.Pointer); ok {
+						st = pt.Elem()
+					}
+					if str, ok := st.Underlying().(*types.Struct); ok {
+						fld := str.Field(s.Index()[0])
+						id := newSite(p, "lock", n.Pos(), fn)
+						recv := f.text(sel.X.Pos(), sel.X.End()) + "." + fld.Name()
+						if _, isPtr := fld.Type().(*types.Pointer); !isPtr {
+							recv = "&" + recv
+						}
+						f.repl(n.Pos(), n.End(), fmt.Sprintf("verifsim.%s(%s, %d)", name, recv, id))
+						return false
+					}
+				}
 				if s := info.Selections[sel]; s != nil && s.Obj().Pkg() != nil && s.Obj().Pkg().Path() == "sync" {
-					unsupported = append(unsupported, relPos(p, n.Pos())+": "+name+" through an embedded sync mutex")
+					unsupported = append(unsupported, relPos(p, n.Pos())+": "+name+" through nested embedding of a sync mutex")
 				}
 			}
-			if name == "Do" && isNamed(rt, "sync", "Once") {
-				unsupported = append(unsupported, relPos(p, n.Pos())+": sync.Once.Do")
+			if name == "Do" && isNamed(rt, "sync", "Once") && len(n.Args) == 1 {
+				id := newSite(p, "once", n.Pos(), fn)
+				recv := f.text(sel.X.Pos(), sel.X.End())
+				if _, isPtr := rt.(*types.Pointer); !isPtr {
+					recv = "&" + recv
+				}
+				// keep the argument's own text (and edits inside it): replace only the callee and add the site
+				f.repl(n.Pos(), n.Lparen+1, fmt.Sprintf("verifsim.OnceDo(%s, ", recv))
+				f.ins(n.Rparen, fmt.Sprintf(", %d", id))
+				return true
 			}
 		}
 		return true
@@ -523,4 +556,166 @@ func passSched(p *packages.Package, file *ast.File, f *fileRW, dense bool) {
 		})
 	}
 	lists(file)
+}
+
+// ---------------------------------------------------------------- gyield pass
+
+// usesPkgVar reports whether the statement's own expressions (not nested
+// blocks or function literals) mention a package-level variable.
+func usesPkgVar(info *types.Info, n ast.Node) bool {
+	found := false
+	ast.Inspect(n, func(x ast.Node) bool {
+		if found {
+			return false
+		}
+		switch x := x.(type) {
+		case *ast.FuncLit, *ast.BlockStmt:
+			return false
+		case *ast.Ident:
+			if v, ok := info.Uses[x].(*types.Var); ok && !v.IsField() && v.Pkg() != nil && v.Parent() == v.Pkg().Scope() {
+				found = true
+			}
+		}
+		return true
+	})
+	return found
+}
+
+func passGYield(p *packages.Package, file *ast.File, f *fileRW) {
+	info := p.TypesInfo
+	fn := ""
+	doList := func(list []ast.Stmt) {
+		for _, st := range list {
+			inner := st
+			if l, ok := st.(*ast.LabeledStmt); ok {
+				inner = l.Stmt
+			}
+			switch inner.(type) {
+			case *ast.CaseClause, *ast.CommClause, *ast.EmptyStmt, *ast.DeclStmt:
+				continue
+			}
+			// headers of compound statements count; their bodies are separate lists
+			var hdr []ast.Node
+			switch x := inner.(type) {
+			case *ast.IfStmt:
+				if x.Init != nil {
+					hdr = append(hdr, x.Init)
+				}
+				hdr = append(hdr, x.Cond)
+			case *ast.ForStmt:
+				if x.Init != nil {
+					hdr = append(hdr, x.Init)
+				}
+				if x.Cond != nil {
+					hdr = append(hdr, x.Cond)
+				}
+			case *ast.RangeStmt:
+				hdr = append(hdr, x.X)
+			case *ast.SwitchStmt:
+				if x.Init != nil {
+					hdr = append(hdr, x.Init)
+				}
+				if x.Tag != nil {
+					hdr = append(hdr, x.Tag)
+				}
+			case *ast.TypeSwitchStmt:
+				hdr = append(hdr, x.Assign)
+			case *ast.BlockStmt, *ast.SelectStmt:
+			default:
+				hdr = append(hdr, inner)
+			}
+			hit := false
+			for _, h := range hdr {
+				if usesPkgVar(info, h) {
+					hit = true
+				}
+			}
+			if hit {
+				id := newSite(p, "global_access", st.Pos(), fn)
+				f.ins(st.Pos(), fmt.Sprintf("verifsim.YieldG(%d)\n", id))
+			}
+		}
+	}
+	ast.Inspect(file, func(x ast.Node) bool {
+		switch x := x.(type) {
+		case *ast.FuncDecl:
+			fn = x.Name.Name
+			if x.Body != nil {
+				id := newSite(p, "func_entry", x.Body.Lbrace, fn)
+				f.ins(x.Body.Lbrace+1, fmt.Sprintf("\nverifsim.YieldG(%d)\n", id))
+			}
+		case *ast.BlockStmt:
+			doList(x.List)
+		case *ast.CaseClause:
+			doList(x.Body)
+		case *ast.CommClause:
+			doList(x.Body)
+		}
+		return true
+	})
+}
+
+// ---------------------------------------------------------------- mapacc pass
+
+func passMapAcc(p *packages.Package, file *ast.File, f *fileRW, withMapPass bool) {
+	info := p.TypesInfo
+	fn := ""
+	writes := map[*ast.IndexExpr]bool{}
+	type span struct{ from, to token.Pos }
+	var skip []span
+	ast.Inspect(file, func(x ast.Node) bool {
+		switch x := x.(type) {
+		case *ast.AssignStmt:
+			for _, l := range x.Lhs {
+				if ix, ok := l.(*ast.IndexExpr); ok {
+					writes[ix] = true
+				}
+			}
+		case *ast.IncDecStmt:
+			if ix, ok := x.X.(*ast.IndexExpr); ok {
+				writes[ix] = true
+			}
+		case *ast.RangeStmt:
+			if withMapPass && mapType(info, x.X) != nil {
+				// the header of a rewritten map range is replaced wholesale from the original text
+				from := x.Pos()
+				skip = append(skip, span{from, x.Body.Lbrace})
+			}
+		}
+		return true
+	})
+	inSkip := func(pos token.Pos) bool {
+		for _, s := range skip {
+			if pos >= s.from && pos <= s.to {
+				return true
+			}
+		}
+		return false
+	}
+	ast.Inspect(file, func(x ast.Node) bool {
+		switch x := x.(type) {
+		case *ast.FuncDecl:
+			fn = x.Name.Name
+		case *ast.IndexExpr:
+			if mapType(info, x.X) == nil || inSkip(x.Pos()) {
+				return true
+			}
+			id := newSite(p, "map_access", x.Pos(), fn)
+			w := "MapR"
+			if writes[x] {
+				w = "MapW"
+			}
+			f.ins(x.X.Pos(), "verifsim."+w+"(")
+			f.ins(x.X.End(), fmt.Sprintf(", %d)", id))
+		case *ast.CallExpr:
+			if id, ok := x.Fun.(*ast.Ident); ok && id.Name == "delete" && len(x.Args) == 2 {
+				if _, isBuiltin := info.Uses[id].(*types.Builtin); isBuiltin && mapType(info, x.Args[0]) != nil && !inSkip(x.Pos()) {
+					sid := newSite(p, "map_access", x.Pos(), fn)
+					f.ins(x.Args[0].Pos(), "verifsim.MapW(")
+					f.ins(x.Args[0].End(), fmt.Sprintf(", %d)", sid))
+				}
+			}
+		}
+		return true
+	})
 }
